@@ -325,16 +325,36 @@ func c18FromPipe(c *Ctx) {
 // execution each (the shuffle takes its first answer everywhere).
 func c18Thousands(c *Ctx) {
 	var entries []string
-	want := map[string]bool{}
 	for i := 0; i < 3000; i++ {
 		e := fmt.Sprintf("h%04d.example.org", i%2500)
 		if i%7 == 0 {
 			e += fmt.Sprintf(":%d", 2200+i%3)
 		}
 		entries = append(entries, e)
+	}
+	c18BigList(c, "thousands", entries)
+	// a whole fleet of systematically named servers (400000 distinct names that differ in a few digits, some listed
+	// twice): were two different names ever taken for the same server - by a hash, a truncated key, a normalisation -
+	// some would be missing here (a 32-bit digest of 400000 names collides ~18 times)
+	entries = nil
+	for dc := 1; dc <= 4; dc++ {
+		for i := 0; i < 100000; i++ {
+			e := fmt.Sprintf("web%05d.dc%d.example.org:2222", i, dc)
+			entries = append(entries, e)
+			if i%1000 == 0 {
+				entries = append(entries, e)
+			}
+		}
+	}
+	c18BigList(c, "fleet", entries)
+}
+
+func c18BigList(c *Ctx, name string, entries []string) {
+	want := map[string]bool{}
+	for _, e := range entries {
 		want[e] = true
 	}
-	path := WriteScratch("c18/thousands.txt", strings.Join(entries, "\n")+"\n")
+	path := WriteScratch("c18/"+name+".txt", strings.Join(entries, "\n")+"\n")
 	for _, src := range []string{"file", "comma"} {
 		var got []string
 		res := vrt.Run(vrt.Config{MaxSteps: 50000000, Horizon: time.Hour}, func() {
@@ -346,9 +366,13 @@ func c18Thousands(c *Ctx) {
 			if src == "comma" {
 				arg = strings.Join(entries, ",")
 			}
-			got = discovery.New("", arg, discovery.Shuffle).ServerList()
+			order := discovery.Shuffle
+			if len(entries) > 10000 {
+				order = discovery.Shuffle + 1 // listed order: the shuffle is quadratic in the list length
+			}
+			got = discovery.New("", arg, order).ServerList()
 		})
-		c.Count("thousands|" + src)
+		c.Count(name + "|" + src)
 		seen := map[string]int{}
 		for _, g := range got {
 			seen[g]++
@@ -361,7 +385,7 @@ func c18Thousands(c *Ctx) {
 			}
 		}
 		if res.Fail != nil || len(got) != len(want) || bad != "" {
-			c.Violation("wrong-server-set", fmt.Sprintf("%s with 3000 entries (%d distinct): %d servers returned %s %v", src, len(want), len(got), bad, res.Fail), map[string]string{"source": src})
+			c.Violation("wrong-server-set", fmt.Sprintf("%s with %d entries (%d distinct, list %q): %d servers returned %s %v", src, len(entries), len(want), name, len(got), bad, res.Fail), map[string]string{"source": src, "list": name})
 		}
 	}
 }
